@@ -338,7 +338,7 @@ MODEL_MAX_LINES = 4000
 
 def req(case):
     if case.get('nomodel'): return '%s;%s' % (hx('x'), cfgcodec.encode({}))
-    return '%s;%s' % (hx(case['s']), cfgcodec.encode(mkcfg(case['c'])))
+    return '%s;%s' % (hx(case['s']), cfgcodec.encode(mkcfg(case['c']), case.get('gc')))
 
 
 def inline_doc(cfg):
@@ -895,6 +895,11 @@ def cases_C14(tier, rnd):
         out.append({'s': k + '>' + k + '>u', 'alt': v + '>(' + v + '>u)', 'c': c, 'g': 'alias-in-alias'})
         out.append({'s': k + '>p+' + k + '>' + k, 'alt': v + '>(p+(' + v + '>(' + v + ')))', 'c': c, 'g': 'alias-in-alias'})
         out.append({'s': 'w>' + k + '>u+v', 'alt': 'w>(' + v + '>u+v)', 'c': c, 'g': 'deepest-last'})
+    # aliases that arrive through the global configuration: the type section and the syntax section both hold snippets
+    gc_ = {'markup': {'snippets': {'galias': 'section>h1+p', 'both': 'i'}}, 'html': {'snippets': {'halias': 'nav>ul', 'both': 'b'}}}
+    for k, alt in [('galias', 'section>h1+p'), ('galias>em', 'section>h1+p>em'), ('halias>li', 'nav>ul>li'), ('both', 'b'), ('div>galias+halias', 'div>(section>h1+p)+(nav>ul)')]:
+        out.append({'s': k, 'alt': alt, 'c': {}, 'gc': gc_, 'g': 'global-aliases'})
+        out.append({'s': k, 'alt': alt, 'c': {'snippets': {'mine': 'u'}}, 'gc': gc_, 'g': 'global-aliases'})
     chain = dict(('s%d' % i, 's%d.k%d' % (i + 1, i)) for i in range(12)); chain['s12'] = 'p.end'
     out.append({'s': 's0', 'alt': 'p.end' + ''.join('.k%d' % i for i in range(11, -1, -1)), 'c': {'snippets': chain}, 'g': 'long-chain'})
     out.append({'s': 'ul>s3*2', 'alt': 'ul>(p.end' + ''.join('.k%d' % i for i in range(11, 2, -1)) + ')*2', 'c': {'snippets': chain}, 'g': 'long-chain'})
@@ -933,7 +938,7 @@ def oracle_C14(case, o):
     v = []
     if o[0] == 'internal': return ['internal-error| expand(%r, %r) raised %s' % (case['s'], case['c'], o[1])]
     if 'alt' in case:
-        o2 = outcome(case['alt'], mkcfg(case['c']))
+        o2 = outcome(case['alt'], mkcfg(case['c']), case.get('gc'))
         if o2 != o:
             v.append('alias| expand(%r) = %r but expanding its definition in its place, expand(%r), gives %r  (config %r)' % (case['s'], o[1], case['alt'], o2[1], case['c']))
     return v
@@ -1143,9 +1148,9 @@ def run(case, prop):
         tags = {'gen:' + case['g']: 1, 'outcome:' + o[0]: 1, 'syntax:' + case['c'].get('syntax', '-'): 1, 'callbacks': len(calls)}
         return line_of(o), viol[:4], tags
     for ab_, cfg_ in case.get('precalls', []): outcome(ab_, mkcfg(cfg_))          # earlier calls in the same process
-    o = outcome(case['s'], mkcfg(case['c']))
+    o = outcome(case['s'], mkcfg(case['c']), case.get('gc'))
     viol = ORACLES[prop](case, o) if prop in ORACLES else []
-    if prop in ORACLES and not case.get('nomodel'):
+    if prop in ORACLES and not case.get('nomodel') and 'gc' not in case:
         # the same call with a `cache` that earlier calls under the same configuration have used: what the statement says of a
         # result it says of this one too
         o2 = outcome_cached(case['s'], mkcfg(case['c']))
